@@ -3,21 +3,77 @@ package main
 import (
 	"fmt"
 	"go/types"
+	"path/filepath"
+	"regexp"
+	"sort"
+	"strings"
 
 	"golang.org/x/tools/go/ssa"
 )
 
-// VFS is the symbolic file-system model used by the storage harnesses (binding B2).
+// VFS is the symbolic file-system model used by the storage harnesses (binding B2, DESIGN.md §2.5).
 // When ex.vfs == nil the "null" binding B1 applies: every file operation succeeds and remembers nothing.
-type VFS struct {
+//
+// A regular file is a sequence of chunks: hdr (a 4-byte big-endian int32 written by binary.Write),
+// blob (an opaque codec output of symbolic length, possibly only partially present after a crash) or
+// raw (a concrete number of symbolic bytes). Every write is durable at once (no page-cache loss is
+// modelled). A crash is a fork before any mutating operation, or inside a write (a byte prefix).
+type vchunk struct {
+	kind   int // 0 hdr, 1 blob, 2 raw
+	val    *Term
+	hbytes int
+	blob   *Blob
+	avail  *Term
+	full   bool
+	raw    []Value
 }
+
+type vfile struct {
+	chunks []*vchunk
+	id     int
+}
+
+type vnode struct {
+	dir  bool
+	file *vfile
+}
+
+type vhandle struct {
+	path   string
+	f      *vfile
+	pos    int
+	closed bool
+}
+
+type vstream struct {
+	chunks []*vchunk
+	pos    int
+}
+
+type VFS struct {
+	nodes     map[string]*vnode
+	handles   map[*Cell]*vhandle
+	streams   map[*Cell]*vstream
+	tmpSeq    int
+	snapSeq   int
+	ops       int
+	crashOn   bool
+	fileSeq   int
+	opLog     []string
+	regexps   map[*Cell]string
+	misparsed bool
+}
+
+func newVFS() *VFS {
+	return &VFS{nodes: map[string]*vnode{"/": {dir: true}}, handles: map[*Cell]*vhandle{}, streams: map[*Cell]*vstream{}, regexps: map[*Cell]string{}}
+}
+
+type crashSignal struct{}
 
 func (ex *Exec) makeBlobBuffer(ln *Term) Value {
 	ex.blobSeq++
 	return &SliceVal{Blob: &Blob{ID: ex.blobSeq, Len: ln, Kind: "buffer"}}
 }
-
-func (ex *Exec) vfsSprintf(fn *ssa.Function, a []Value) (Value, bool) { return nil, false }
 
 func nilErr() Value { return &IfaceVal{} }
 
@@ -34,50 +90,866 @@ func plField(c *Cell, name string) *Cell {
 			return c.Kids[i]
 		}
 	}
-	panic("persistentLog has no field " + name)
+	panic("struct has no field " + name)
+}
+
+func (v *VFS) logOp(s string) {
+	if len(v.opLog) < 64 {
+		v.opLog = append(v.opLog, s)
+	}
+}
+
+// crashPoint forks: the process may die right before the mutating operation `name`.
+func (ex *Exec) crashPoint(name string) {
+	v := ex.vfs
+	v.ops++
+	if !v.crashOn {
+		return
+	}
+	c := ex.newVar(fmt.Sprintf("crash.before.op%d", v.ops), 0)
+	if ex.branch(c) {
+		ex.choices["crash.op"] = uint64(v.ops)
+		ex.tags["crash"] = "before:" + strings.Fields(name)[0]
+		v.logOp("CRASH before " + name)
+		panic(crashSignal{})
+	}
+}
+
+func (v *VFS) exists(p string) bool { _, ok := v.nodes[p]; return ok }
+
+func (v *VFS) children(dir string) []string {
+	var names []string
+	prefix := dir + "/"
+	for p := range v.nodes {
+		if strings.HasPrefix(p, prefix) && !strings.Contains(p[len(prefix):], "/") {
+			names = append(names, p[len(prefix):])
+		}
+	}
+	sort.Strings(names)
+	return names
+}
+
+func (v *VFS) removeAll(p string) {
+	delete(v.nodes, p)
+	prefix := p + "/"
+	for q := range v.nodes {
+		if strings.HasPrefix(q, prefix) {
+			delete(v.nodes, q)
+		}
+	}
+}
+
+func (ex *Exec) pathErr(kind string) Value {
+	switch kind {
+	case "notexist":
+		return ex.ioSentinel("io/fs", "ErrNotExist")
+	case "exist":
+		return ex.ioSentinel("io/fs", "ErrExist")
+	case "closed":
+		return ex.ioSentinel("io/fs", "ErrClosed")
+	}
+	return ex.newError("vfs:"+kind, nil)
+}
+
+func (ex *Exec) handleOf(v Value) *vhandle {
+	p := v.(*Ptr)
+	if p.C == nil {
+		ex.end("PANIC", "nil-file@"+ex.whereRepo())
+	}
+	h := ex.vfs.handles[p.C]
+	if h == nil {
+		ex.fatal("file handle not opened through the vfs")
+	}
+	return h
+}
+
+func chunkSize(c *vchunk) *Term {
+	switch c.kind {
+	case 0:
+		return mkConst(64, uint64(c.hbytes))
+	case 1:
+		return c.avail
+	default:
+		return mkConst(64, uint64(len(c.raw)))
+	}
+}
+
+func offsetOfChunks(chunks []*vchunk, pos int) *Term {
+	t := mkConst(64, 0)
+	for i := 0; i < pos; i++ {
+		t = mkBin("bvadd", t, chunkSize(chunks[i]))
+	}
+	return t
+}
+
+func offsetOf(f *vfile, pos int) *Term { return offsetOfChunks(f.chunks, pos) }
+
+// boundaryFor finds the chunk boundary whose offset equals off (forking over the candidates).
+func (ex *Exec) boundaryFor(f *vfile, off *Term) int {
+	for k := 0; k <= len(f.chunks); k++ {
+		if ex.branch(mkCmp("=", off, offsetOf(f, k))) {
+			return k
+		}
+	}
+	return -1
+}
+
+func (ex *Exec) openFile(fn *ssa.Function, path string, create, trunc bool) Value {
+	v := ex.vfs
+	n := v.nodes[path]
+	if n == nil {
+		if !create || !v.exists(filepath.Dir(path)) {
+			return &Agg{E: []Value{&Ptr{}, ex.pathErr("notexist")}}
+		}
+		ex.crashPoint("create " + path)
+		v.fileSeq++
+		n = &vnode{file: &vfile{id: v.fileSeq}}
+		v.nodes[path] = n
+		v.logOp("create " + path)
+	} else if n.dir {
+		return &Agg{E: []Value{&Ptr{}, ex.newError("vfs:is-a-directory", nil)}}
+	} else if trunc && len(n.file.chunks) > 0 {
+		ex.crashPoint("truncate-on-open " + path)
+		n.file.chunks = nil
+	}
+	c := ex.newFileCell(fn, 0)
+	v.handles[c] = &vhandle{path: path, f: n.file}
+	return &Agg{E: []Value{&Ptr{C: c}, nilErr()}}
+}
+
+func (ex *Exec) appendChunk(h *vhandle, c *vchunk) {
+	if h.pos != len(h.f.chunks) {
+		ex.fatal("vfs: write that is not at the end of the file (pos %d of %d chunks)", h.pos, len(h.f.chunks))
+	}
+	h.f.chunks = append(h.f.chunks, c)
+	h.pos++
+}
+
+// writeSlice models w.Write(p) on a vfs file, including a crash that leaves a byte prefix.
+func (ex *Exec) writeSlice(h *vhandle, s *SliceVal) Value {
+	v := ex.vfs
+	if h.closed {
+		return &Agg{E: []Value{mkConst(64, 0), ex.pathErr("closed")}}
+	}
+	if s.Blob != nil {
+		b := s.Blob
+		if b.Len.IsConst() && b.Len.C == 0 {
+			return &Agg{E: []Value{mkConst(64, 0), nilErr()}}
+		}
+		ex.crashPoint("write " + h.path)
+		if v.crashOn {
+			c := ex.newVar(fmt.Sprintf("crash.inside.op%d", v.ops), 0)
+			if ex.branch(c) {
+				m := ex.newVar(fmt.Sprintf("crash.cut.op%d", v.ops), 64)
+				ex.assume(mkAnd(mkCmp("bvult", mkConst(64, 0), m), mkCmp("bvult", m, b.Len)))
+				ex.ensureFeasible()
+				ex.appendChunk(h, &vchunk{kind: 1, blob: b, avail: m})
+				ex.choices["crash.op"] = uint64(v.ops)
+				ex.tags["crash"] = "inside-payload-write"
+				v.logOp("CRASH inside payload write " + h.path)
+				panic(crashSignal{})
+			}
+		}
+		ex.appendChunk(h, &vchunk{kind: 1, blob: b, avail: b.Len, full: true})
+		v.logOp("write blob " + h.path)
+		return &Agg{E: []Value{b.Len, nilErr()}}
+	}
+	if s.Len == 0 {
+		return &Agg{E: []Value{mkConst(64, 0), nilErr()}}
+	}
+	ex.crashPoint("write " + h.path)
+	raw := ex.sliceElems(s)
+	if v.crashOn && len(raw) > 1 {
+		c := ex.newVar(fmt.Sprintf("crash.inside.op%d", v.ops), 0)
+		if ex.branch(c) {
+			k := 1
+			for ; k < len(raw)-1; k++ {
+				if ex.branch(ex.newVar(fmt.Sprintf("crash.rawcut%d.op%d", k, v.ops), 0)) {
+					break
+				}
+			}
+			ex.appendChunk(h, &vchunk{kind: 2, raw: raw[:k]})
+			ex.choices["crash.op"] = uint64(v.ops)
+			ex.choices["crash.rawbytes"] = uint64(k)
+			ex.tags["crash"] = "inside-raw-write"
+			panic(crashSignal{})
+		}
+	}
+	ex.appendChunk(h, &vchunk{kind: 2, raw: raw})
+	v.logOp("write raw " + h.path)
+	return &Agg{E: []Value{mkConst(64, uint64(len(raw))), nilErr()}}
+}
+
+// sourceOf resolves a reader value to a chunk stream (file handle, bytes.Reader over file content).
+func (ex *Exec) sourceOf(r Value) (chunks *[]*vchunk, pos *int, ok bool) {
+	if ex.vfs == nil {
+		return nil, nil, false
+	}
+	if iv, isI := r.(*IfaceVal); isI {
+		if iv.Typ == nil {
+			return nil, nil, false
+		}
+		r = iv.Val
+	}
+	p, isP := r.(*Ptr)
+	if !isP || p.C == nil {
+		return nil, nil, false
+	}
+	if h := ex.vfs.handles[p.C]; h != nil {
+		return &h.f.chunks, &h.pos, true
+	}
+	if s := ex.vfs.streams[p.C]; s != nil {
+		return &s.chunks, &s.pos, true
+	}
+	// a struct embedding a reader interface as its first field (snapshotFile embeds io.ReadWriteSeeker)
+	if st, isS := p.C.T.Underlying().(*types.Struct); isS && st.NumFields() > 0 && st.Field(0).Embedded() {
+		if inner, isIface := p.C.Kids[0].V.(*IfaceVal); isIface {
+			return ex.sourceOf(inner)
+		}
+	}
+	return nil, nil, false
+}
+
+// readHeader models binary.Read(r, order, &int32) on a chunk stream.
+func (ex *Exec) readHeader(chunks []*vchunk, pos *int) (*Term, Value) {
+	if *pos >= len(chunks) {
+		return nil, ex.ioSentinel("io", "EOF")
+	}
+	c := chunks[*pos]
+	if c.kind == 0 {
+		if c.hbytes == 4 {
+			*pos++
+			return c.val, nilErr()
+		}
+		if *pos == len(chunks)-1 {
+			*pos++
+			return nil, ex.ioSentinel("io", "ErrUnexpectedEOF")
+		}
+	}
+	// four bytes are taken from something that is not a length header: the framing is lost
+	ex.vfs.misparsed = true
+	ex.tags["misparse"] = "header-read-from-payload"
+	*pos = len(chunks)
+	return nil, ex.newError("vfs:misaligned-header-read", nil)
+}
+
+// readFullBlob models io.ReadFull(r, buf) where buf has symbolic length n.
+func (ex *Exec) readFullBlob(chunks []*vchunk, pos *int, buf *Blob) Value {
+	n := buf.Len
+	if ex.branch(mkCmp("=", n, mkConst(64, 0))) {
+		return &Agg{E: []Value{mkConst(64, 0), nilErr()}}
+	}
+	if *pos >= len(chunks) {
+		return &Agg{E: []Value{mkConst(64, 0), ex.ioSentinel("io", "EOF")}}
+	}
+	c := chunks[*pos]
+	last := *pos == len(chunks)-1
+	if c.kind == 1 {
+		if ex.branch(mkCmp("=", n, c.avail)) {
+			*pos++
+			if c.full {
+				buf.Kind, buf.Msg = c.blob.Kind, c.blob.Msg
+			} else {
+				buf.Kind = "partial"
+			}
+			return &Agg{E: []Value{n, nilErr()}}
+		}
+		if last && ex.branch(mkCmp("bvult", c.avail, n)) {
+			*pos++
+			return &Agg{E: []Value{c.avail, ex.ioSentinel("io", "ErrUnexpectedEOF")}}
+		}
+	}
+	ex.vfs.misparsed = true
+	ex.tags["misparse"] = "payload-read-across-records"
+	*pos = len(chunks)
+	buf.Kind = "garbage"
+	return &Agg{E: []Value{n, nilErr()}}
+}
+
+func (ex *Exec) vfsReadFull(a []Value) (Value, bool) {
+	chunks, pos, ok := ex.sourceOf(a[0])
+	if !ok {
+		return nil, false
+	}
+	buf := a[1].(*SliceVal)
+	if buf.Blob != nil {
+		return ex.readFullBlob(*chunks, pos, buf.Blob), true
+	}
+	return nil, false
+}
+
+func (ex *Exec) vfsSprintf(fn *ssa.Function, a []Value) (Value, bool) {
+	if ex.vfs == nil {
+		return nil, false
+	}
+	format, ok := a[0].(*StrVal)
+	if !ok || format.Sym != nil {
+		return nil, false
+	}
+	if format.S == "snapshot-%v" {
+		// buildDirectoryBase: names grow with the (monotone) clock and have equal digit counts
+		ex.vfs.snapSeq++
+		return &StrVal{S: fmt.Sprintf("snapshot-%d", 1700000000000000000+ex.vfs.snapSeq*1000)}, true
+	}
+	return nil, false
+}
+
+func (ex *Exec) harnessObj(typeName string, fields ...Value) Value {
+	t := ex.w.raftPkg.Type(typeName)
+	if t == nil {
+		ex.fatal("harness type %s missing", typeName)
+	}
+	c := ex.newCell(t.Type())
+	for i, f := range fields {
+		c.Kids[i].V = f
+	}
+	return &IfaceVal{Typ: types.NewPointer(t.Type()), Val: &Ptr{C: c}}
+}
+
+func (ex *Exec) callFuncVal(f *FuncVal, args ...Value) Value {
+	return ex.callNamed(f.Fn, args, f.Bind, nil)
+}
+
+func isSkipDir(ex *Exec, v Value) bool {
+	if isNilErr(v) {
+		return false
+	}
+	return ex.valueEq(v, ex.ioSentinel("io/fs", "SkipDir")).IsTrue()
+}
+
+// walk is filepath.walk (Go 1.23): the names of a directory are read before the callback runs on it.
+func (ex *Exec) walk(path string, fnv *FuncVal) Value {
+	v := ex.vfs
+	n := v.nodes[path]
+	info := ex.harnessObj("vFileInfo", &StrVal{S: filepath.Base(path)}, mkBool(n.dir))
+	if !n.dir {
+		return ex.callFuncVal(fnv, &StrVal{S: path}, info, nilErr())
+	}
+	names := v.children(path)
+	err1 := ex.callFuncVal(fnv, &StrVal{S: path}, info, nilErr())
+	if !isNilErr(err1) {
+		return err1
+	}
+	for _, name := range names {
+		child := path + "/" + name
+		cn := v.nodes[child]
+		if cn == nil {
+			// lstat fails: the callback gets the error
+			e := ex.callFuncVal(fnv, &StrVal{S: child}, &IfaceVal{}, ex.pathErr("notexist"))
+			if !isNilErr(e) && !isSkipDir(ex, e) {
+				return e
+			}
+			continue
+		}
+		e := ex.walk(child, fnv)
+		if !isNilErr(e) {
+			if !cn.dir || !isSkipDir(ex, e) {
+				return e
+			}
+		}
+	}
+	return nilErr()
 }
 
 func registerIOIntercepts() {
 	m := map[string]handler{
 		"(*os.File).Seek": func(ex *Exec, fn *ssa.Function, a []Value) Value {
-			v := ex.newVar("file.offset", 64)
-			ex.assume(mkCmp("bvsle", mkConst(64, 0), v))
-			return &Agg{E: []Value{v, nilErr()}}
+			if ex.vfs == nil {
+				v := ex.newVar("file.offset", 64)
+				ex.assume(mkCmp("bvsle", mkConst(64, 0), v))
+				return &Agg{E: []Value{v, nilErr()}}
+			}
+			h := ex.handleOf(a[0])
+			if h.closed {
+				return &Agg{E: []Value{mkConst(64, 0), ex.pathErr("closed")}}
+			}
+			off := a[1].(*Term)
+			wh := ex.concretizeInt(a[2].(*Term), 0, 2)
+			switch wh {
+			case 0:
+				k := ex.boundaryFor(h.f, off)
+				if k < 0 {
+					ex.fatal("vfs: seek to an offset that is not a record boundary")
+				}
+				h.pos = k
+			case 1:
+				if !(off.IsConst() && off.C == 0) {
+					ex.fatal("vfs: relative seek with non-zero offset")
+				}
+			case 2:
+				if !(off.IsConst() && off.C == 0) {
+					ex.fatal("vfs: seek from end with non-zero offset")
+				}
+				h.pos = len(h.f.chunks)
+			}
+			return &Agg{E: []Value{offsetOf(h.f, h.pos), nilErr()}}
 		},
-		"(*os.File).Sync":     func(ex *Exec, fn *ssa.Function, a []Value) Value { return nilErr() },
-		"(*os.File).Close":    func(ex *Exec, fn *ssa.Function, a []Value) Value { return nilErr() },
-		"(*os.File).Truncate": func(ex *Exec, fn *ssa.Function, a []Value) Value { return nilErr() },
-		"(*os.File).Name":     func(ex *Exec, fn *ssa.Function, a []Value) Value { return &StrVal{S: "<file>"} },
+		"(*os.File).Sync": func(ex *Exec, fn *ssa.Function, a []Value) Value {
+			if ex.vfs != nil {
+				h := ex.handleOf(a[0])
+				if h.closed {
+					return ex.pathErr("closed")
+				}
+				ex.vfs.logOp("sync " + h.path)
+				ex.vfsEvent("sync", h.path)
+			}
+			return nilErr()
+		},
+		"(*os.File).Close": func(ex *Exec, fn *ssa.Function, a []Value) Value {
+			if ex.vfs != nil {
+				h := ex.handleOf(a[0])
+				if h.closed {
+					return ex.pathErr("closed")
+				}
+				h.closed = true
+			}
+			return nilErr()
+		},
+		"(*os.File).Truncate": func(ex *Exec, fn *ssa.Function, a []Value) Value {
+			if ex.vfs == nil {
+				return nilErr()
+			}
+			h := ex.handleOf(a[0])
+			if h.closed {
+				return ex.pathErr("closed")
+			}
+			k := ex.boundaryFor(h.f, a[1].(*Term))
+			if k < 0 {
+				// cutting inside a record: the framing of the file is destroyed
+				ex.vfs.misparsed = true
+				ex.tags["misparse"] = "truncate-inside-record"
+				k = 0
+			}
+			if k < len(h.f.chunks) {
+				ex.crashPoint("truncate " + h.path)
+				h.f.chunks = h.f.chunks[:k]
+				ex.vfs.logOp("truncate " + h.path)
+			}
+			return nilErr()
+		},
+		"(*os.File).Name": func(ex *Exec, fn *ssa.Function, a []Value) Value {
+			if ex.vfs == nil {
+				return &StrVal{S: "<file>"}
+			}
+			return &StrVal{S: ex.handleOf(a[0]).path}
+		},
 		"(*os.File).Write": func(ex *Exec, fn *ssa.Function, a []Value) Value {
 			s := a[1].(*SliceVal)
-			var n *Term
-			if s.Blob != nil {
-				n = s.Blob.Len
-			} else {
-				n = mkConst(64, uint64(s.Len))
+			if ex.vfs == nil {
+				var n *Term
+				if s.Blob != nil {
+					n = s.Blob.Len
+				} else {
+					n = mkConst(64, uint64(s.Len))
+				}
+				return &Agg{E: []Value{n, nilErr()}}
 			}
-			return &Agg{E: []Value{n, nilErr()}}
+			return ex.writeSlice(ex.handleOf(a[0]), s)
+		},
+		"(*os.File).Read": func(ex *Exec, fn *ssa.Function, a []Value) Value {
+			if ex.vfs == nil {
+				ex.fatal("file read without vfs")
+			}
+			h := ex.handleOf(a[0])
+			p := a[1].(*SliceVal)
+			if h.closed {
+				return &Agg{E: []Value{mkConst(64, 0), ex.pathErr("closed")}}
+			}
+			if h.pos >= len(h.f.chunks) {
+				return &Agg{E: []Value{mkConst(64, 0), ex.ioSentinel("io", "EOF")}}
+			}
+			c := h.f.chunks[h.pos]
+			if c.kind != 2 || p.Blob != nil || p.Len < len(c.raw) {
+				ex.fatal("vfs: byte-wise read of a non-raw chunk")
+			}
+			for i, b := range c.raw {
+				ex.store(p.Arr.Kids[p.Off+i], b)
+			}
+			h.pos++
+			return &Agg{E: []Value{mkConst(64, uint64(len(c.raw))), nilErr()}}
 		},
 		"os.CreateTemp": func(ex *Exec, fn *ssa.Function, a []Value) Value {
-			return &Agg{E: []Value{&Ptr{C: ex.newFileCell(fn, 0)}, nilErr()}}
+			if ex.vfs == nil {
+				return &Agg{E: []Value{&Ptr{C: ex.newFileCell(fn, 0)}, nilErr()}}
+			}
+			ex.vfs.tmpSeq++
+			name := fmt.Sprintf("%s/%s%d", ex.concStr(a[0].(*StrVal)), ex.concStr(a[1].(*StrVal)), 1000+ex.vfs.tmpSeq)
+			return ex.openFile(fn, name, true, false)
+		},
+		"os.MkdirTemp": func(ex *Exec, fn *ssa.Function, a []Value) Value {
+			if ex.vfs == nil {
+				return &Agg{E: []Value{&StrVal{S: "<tmpdir>"}, nilErr()}}
+			}
+			ex.vfs.tmpSeq++
+			name := fmt.Sprintf("%s/%s%d", ex.concStr(a[0].(*StrVal)), ex.concStr(a[1].(*StrVal)), 1000+ex.vfs.tmpSeq)
+			ex.crashPoint("mkdir " + name)
+			ex.vfs.nodes[name] = &vnode{dir: true}
+			ex.vfs.logOp("mkdir " + name)
+			return &Agg{E: []Value{&StrVal{S: name}, nilErr()}}
 		},
 		"os.OpenFile": func(ex *Exec, fn *ssa.Function, a []Value) Value {
-			return &Agg{E: []Value{&Ptr{C: ex.newFileCell(fn, 0)}, nilErr()}}
+			if ex.vfs == nil {
+				return &Agg{E: []Value{&Ptr{C: ex.newFileCell(fn, 0)}, nilErr()}}
+			}
+			flag := a[1].(*Term)
+			if !flag.IsConst() {
+				ex.fatal("symbolic open flags")
+			}
+			return ex.openFile(fn, ex.concStr(a[0].(*StrVal)), flag.C&0x40 != 0, flag.C&0x200 != 0)
 		},
-		"os.Rename":    func(ex *Exec, fn *ssa.Function, a []Value) Value { return nilErr() },
-		"os.Remove":    func(ex *Exec, fn *ssa.Function, a []Value) Value { return nilErr() },
-		"os.RemoveAll": func(ex *Exec, fn *ssa.Function, a []Value) Value { return nilErr() },
-		"os.MkdirAll":  func(ex *Exec, fn *ssa.Function, a []Value) Value { return nilErr() },
+		"os.Create": func(ex *Exec, fn *ssa.Function, a []Value) Value {
+			if ex.vfs == nil {
+				return &Agg{E: []Value{&Ptr{C: ex.newFileCell(fn, 0)}, nilErr()}}
+			}
+			return ex.openFile(fn, ex.concStr(a[0].(*StrVal)), true, true)
+		},
+		"os.Open": func(ex *Exec, fn *ssa.Function, a []Value) Value {
+			if ex.vfs == nil {
+				return &Agg{E: []Value{&Ptr{C: ex.newFileCell(fn, 0)}, nilErr()}}
+			}
+			return ex.openFile(fn, ex.concStr(a[0].(*StrVal)), false, false)
+		},
+		"os.Rename": func(ex *Exec, fn *ssa.Function, a []Value) Value {
+			if ex.vfs == nil {
+				return nilErr()
+			}
+			v := ex.vfs
+			from, to := ex.concStr(a[0].(*StrVal)), ex.concStr(a[1].(*StrVal))
+			n := v.nodes[from]
+			if n == nil {
+				return ex.pathErr("notexist")
+			}
+			if t := v.nodes[to]; t != nil && t.dir && len(v.children(to)) > 0 {
+				return ex.pathErr("exist")
+			}
+			ex.crashPoint("rename " + from + " -> " + to)
+			v.removeAll(to)
+			v.nodes[to] = n
+			delete(v.nodes, from)
+			prefix := from + "/"
+			moved := map[string]*vnode{}
+			for q, qn := range v.nodes {
+				if strings.HasPrefix(q, prefix) {
+					moved[to+"/"+q[len(prefix):]] = qn
+					delete(v.nodes, q)
+				}
+			}
+			for q, qn := range moved {
+				v.nodes[q] = qn
+			}
+			v.logOp("rename " + from + " -> " + to)
+			ex.vfsEvent("rename", to)
+			return nilErr()
+		},
+		"os.Remove": func(ex *Exec, fn *ssa.Function, a []Value) Value {
+			if ex.vfs == nil {
+				return nilErr()
+			}
+			p := ex.concStr(a[0].(*StrVal))
+			if !ex.vfs.exists(p) {
+				return ex.pathErr("notexist")
+			}
+			ex.crashPoint("remove " + p)
+			delete(ex.vfs.nodes, p)
+			ex.vfs.logOp("remove " + p)
+			return nilErr()
+		},
+		"os.RemoveAll": func(ex *Exec, fn *ssa.Function, a []Value) Value {
+			if ex.vfs == nil {
+				return nilErr()
+			}
+			p := ex.concStr(a[0].(*StrVal))
+			if ex.vfs.exists(p) {
+				ex.crashPoint("removeall " + p)
+				ex.vfs.removeAll(p)
+				ex.vfs.logOp("removeall " + p)
+			}
+			return nilErr()
+		},
+		"os.MkdirAll": func(ex *Exec, fn *ssa.Function, a []Value) Value {
+			if ex.vfs == nil {
+				return nilErr()
+			}
+			p := ex.concStr(a[0].(*StrVal))
+			parts := strings.Split(strings.TrimPrefix(p, "/"), "/")
+			cur := ""
+			for _, part := range parts {
+				cur += "/" + part
+				if n := ex.vfs.nodes[cur]; n == nil {
+					ex.crashPoint("mkdir " + cur)
+					ex.vfs.nodes[cur] = &vnode{dir: true}
+				} else if !n.dir {
+					return ex.newError("vfs:not-a-directory", nil)
+				}
+			}
+			return nilErr()
+		},
+		"os.Stat": func(ex *Exec, fn *ssa.Function, a []Value) Value {
+			if ex.vfs == nil {
+				ex.fatal("os.Stat without vfs")
+			}
+			p := ex.concStr(a[0].(*StrVal))
+			n := ex.vfs.nodes[p]
+			if n == nil {
+				return &Agg{E: []Value{&IfaceVal{}, ex.pathErr("notexist")}}
+			}
+			return &Agg{E: []Value{ex.harnessObj("vFileInfo", &StrVal{S: filepath.Base(p)}, mkBool(n.dir)), nilErr()}}
+		},
+		"os.ReadFile": func(ex *Exec, fn *ssa.Function, a []Value) Value {
+			if ex.vfs == nil {
+				ex.fatal("os.ReadFile without vfs")
+			}
+			p := ex.concStr(a[0].(*StrVal))
+			n := ex.vfs.nodes[p]
+			if n == nil || n.dir {
+				return &Agg{E: []Value{&SliceVal{}, ex.pathErr("notexist")}}
+			}
+			ex.blobSeq++
+			chunks := append([]*vchunk{}, n.file.chunks...)
+			return &Agg{E: []Value{&SliceVal{Blob: &Blob{ID: ex.blobSeq, Len: offsetOf(n.file, len(chunks)), Kind: "filecontent", Msg: chunks}}, nilErr()}}
+		},
+		"os.ReadDir": func(ex *Exec, fn *ssa.Function, a []Value) Value {
+			if ex.vfs == nil {
+				ex.fatal("os.ReadDir without vfs")
+			}
+			p := ex.concStr(a[0].(*StrVal))
+			n := ex.vfs.nodes[p]
+			st := fn.Signature.Results().At(0).Type().Underlying().(*types.Slice)
+			if n == nil || !n.dir {
+				return &Agg{E: []Value{&SliceVal{}, ex.pathErr("notexist")}}
+			}
+			names := ex.vfs.children(p)
+			arr := ex.newArrayCell(st.Elem(), len(names))
+			for i, name := range names {
+				arr.Kids[i].V = ex.harnessObj("vDirEntry", &StrVal{S: name}, mkBool(ex.vfs.nodes[p+"/"+name].dir))
+			}
+			return &Agg{E: []Value{&SliceVal{Arr: arr, Len: len(names), Cap: len(names)}, nilErr()}}
+		},
+		"path/filepath.Walk": func(ex *Exec, fn *ssa.Function, a []Value) Value {
+			if ex.vfs == nil {
+				return nilErr()
+			}
+			root := ex.concStr(a[0].(*StrVal))
+			fnv := a[1].(*FuncVal)
+			var e Value
+			if !ex.vfs.exists(root) {
+				e = ex.callFuncVal(fnv, &StrVal{S: root}, &IfaceVal{}, ex.pathErr("notexist"))
+			} else {
+				e = ex.walk(root, fnv)
+			}
+			if isSkipDir(ex, e) {
+				return nilErr()
+			}
+			return e
+		},
+		"regexp.Compile": func(ex *Exec, fn *ssa.Function, a []Value) Value {
+			pat := ex.concStr(a[0].(*StrVal))
+			if _, err := regexp.Compile(pat); err != nil {
+				return &Agg{E: []Value{&Ptr{}, ex.newError("regexp", nil)}}
+			}
+			if ex.vfs == nil {
+				ex.fatal("regexp without vfs")
+			}
+			c := ex.newFileCell(fn, 0)
+			ex.vfs.regexps[c] = pat
+			return &Agg{E: []Value{&Ptr{C: c}, nilErr()}}
+		},
+		"(*regexp.Regexp).MatchString": func(ex *Exec, fn *ssa.Function, a []Value) Value {
+			pat := ex.vfs.regexps[a[0].(*Ptr).C]
+			return mkBool(regexp.MustCompile(pat).MatchString(ex.concStr(a[1].(*StrVal))))
+		},
+		"fmt.Sscanf": func(ex *Exec, fn *ssa.Function, a []Value) Value {
+			// only the one use in snapshot_storage.go: Sscanf(s, "snapshot-%d", &int64)
+			in, format := ex.concStr(a[0].(*StrVal)), ex.concStr(a[1].(*StrVal))
+			args := ex.sliceElems(a[2].(*SliceVal))
+			if format != "snapshot-%d" || len(args) != 1 {
+				ex.fatal("fmt.Sscanf format not modelled: %q", format)
+			}
+			var ts int64
+			n, err := fmt.Sscanf(in, format, &ts)
+			if n == 1 {
+				ex.store(args[0].(*IfaceVal).Val.(*Ptr).C, mkConst(64, uint64(ts)))
+			}
+			if err != nil {
+				return &Agg{E: []Value{mkConst(64, uint64(n)), ex.newError("sscanf", nil)}}
+			}
+			return &Agg{E: []Value{mkConst(64, uint64(n)), nilErr()}}
+		},
+		"sort.Slice": func(ex *Exec, fn *ssa.Function, a []Value) Value {
+			s := a[0].(*IfaceVal).Val.(*SliceVal)
+			less := a[1].(*FuncVal)
+			if s.Len > 12 {
+				ex.fatal("sort.Slice on more than 12 elements is outside the model (Go switches algorithm)")
+			}
+			// insertion sort, as sort.Slice does for n <= 12
+			for i := 1; i < s.Len; i++ {
+				for j := i; j > 0; j-- {
+					lt := ex.callFuncVal(less, mkConst(64, uint64(j)), mkConst(64, uint64(j-1))).(*Term)
+					if !ex.branch(lt) {
+						break
+					}
+					x, y := s.Arr.Kids[s.Off+j], s.Arr.Kids[s.Off+j-1]
+					vx, vy := ex.load(x), ex.load(y)
+					ex.store(x, vy)
+					ex.store(y, vx)
+				}
+			}
+			return nil
+		},
 		"google.golang.org/protobuf/proto.Marshal": func(ex *Exec, fn *ssa.Function, a []Value) Value {
 			ex.blobSeq++
-			ln := ex.newVar("marshal.len", 64)
-			ex.assume(mkCmp("bvult", ln, mkConst(64, 1<<31)))
-			return &Agg{E: []Value{&SliceVal{Blob: &Blob{ID: ex.blobSeq, Len: ln, Kind: "proto", Msg: a[0]}}, nilErr()}}
+			msg := a[0].(*IfaceVal)
+			var ln *Term
+			snap := ex.load(msg.Val.(*Ptr).C)
+			if allZero(snap) {
+				ln = mkConst(64, 0) // proto3: a message with only default values encodes to zero bytes
+			} else {
+				ln = ex.newVar("marshal.len", 64)
+				ex.assume(mkAnd(mkCmp("bvule", mkConst(64, 2), ln), mkCmp("bvult", ln, mkConst(64, 1<<31))))
+			}
+			return &Agg{E: []Value{&SliceVal{Blob: &Blob{ID: ex.blobSeq, Len: ln, Kind: "proto:" + typeStr(msg.Typ), Msg: snap, MsgType: msg.Typ}}, nilErr()}}
 		},
-		"encoding/binary.Write": func(ex *Exec, fn *ssa.Function, a []Value) Value { return nilErr() },
+		"google.golang.org/protobuf/proto.Unmarshal": func(ex *Exec, fn *ssa.Function, a []Value) Value {
+			buf := a[0].(*SliceVal)
+			msg := a[1].(*IfaceVal)
+			if buf.Blob == nil {
+				if buf.Len == 0 {
+					return nilErr() // empty input = message with default values
+				}
+				return ex.newError("unmarshal:not-a-codec-output", nil)
+			}
+			b := buf.Blob
+			if b.Kind == "proto:"+typeStr(msg.Typ) {
+				ex.store(msg.Val.(*Ptr).C, b.Msg.(Value))
+				return nilErr()
+			}
+			if b.Len.IsConst() && b.Len.C == 0 {
+				return nilErr()
+			}
+			if b.Kind == "garbage" {
+				// bytes that are not one complete codec output: the library may fail or decode junk
+				if ex.branch(ex.newVar("unmarshal.junk-accepted", 0)) {
+					ex.tags["misparse"] = "junk-decoded"
+					return nilErr()
+				}
+			}
+			return ex.newError("unmarshal:"+b.Kind, nil)
+		},
+		"encoding/json.Marshal": func(ex *Exec, fn *ssa.Function, a []Value) Value {
+			ex.blobSeq++
+			iv := a[0].(*IfaceVal)
+			var snap Value
+			if p, ok := iv.Val.(*Ptr); ok {
+				snap = ex.load(p.C)
+			} else {
+				snap = iv.Val
+			}
+			ln := ex.newVar("jsonmarshal.len", 64)
+			ex.assume(mkAnd(mkCmp("bvule", mkConst(64, 2), ln), mkCmp("bvult", ln, mkConst(64, 1<<31))))
+			return &Agg{E: []Value{&SliceVal{Blob: &Blob{ID: ex.blobSeq, Len: ln, Kind: "json", Msg: snap, MsgType: iv.Typ}}, nilErr()}}
+		},
+		"encoding/json.Unmarshal": func(ex *Exec, fn *ssa.Function, a []Value) Value {
+			buf := a[0].(*SliceVal)
+			target := a[1].(*IfaceVal).Val.(*Ptr).C
+			if buf.Blob != nil && buf.Blob.Kind == "filecontent" {
+				chunks := buf.Blob.Msg.([]*vchunk)
+				if len(chunks) == 1 && chunks[0].kind == 1 && chunks[0].full && chunks[0].blob.Kind == "json" {
+					ex.store(target, chunks[0].blob.Msg.(Value))
+					return nilErr()
+				}
+			}
+			if buf.Blob != nil && buf.Blob.Kind == "json" {
+				ex.store(target, buf.Blob.Msg.(Value))
+				return nilErr()
+			}
+			return ex.newError("json:unmarshal", nil)
+		},
+		"io.ReadAll": func(ex *Exec, fn *ssa.Function, a []Value) Value {
+			chunks, pos, ok := ex.sourceOf(a[0])
+			if !ok {
+				ex.fatal("io.ReadAll on a reader that is not vfs-backed")
+			}
+			rest := append([]*vchunk{}, (*chunks)[*pos:]...)
+			*pos = len(*chunks)
+			ex.blobSeq++
+			return &Agg{E: []Value{&SliceVal{Blob: &Blob{ID: ex.blobSeq, Len: offsetOfChunks(rest, len(rest)), Kind: "filecontent", Msg: rest}}, nilErr()}}
+		},
+		"encoding/binary.Write": func(ex *Exec, fn *ssa.Function, a []Value) Value {
+			if ex.vfs == nil {
+				return nilErr()
+			}
+			w := a[0].(*IfaceVal)
+			val, ok := a[2].(*IfaceVal).Val.(*Term)
+			if !ok || val.W != 32 {
+				ex.fatal("binary.Write of a non-int32 value")
+			}
+			p, isP := w.Val.(*Ptr)
+			if !isP {
+				ex.fatal("binary.Write to a writer that is not a vfs file")
+			}
+			h := ex.vfs.handles[p.C]
+			if h == nil {
+				ex.fatal("binary.Write to a writer that is not a vfs file")
+			}
+			if h.closed {
+				return ex.pathErr("closed")
+			}
+			ex.crashPoint("write-header " + h.path)
+			if ex.vfs.crashOn {
+				c := ex.newVar(fmt.Sprintf("crash.inside.op%d", ex.vfs.ops), 0)
+				if ex.branch(c) {
+					k := 1
+					for ; k < 3; k++ {
+						if ex.branch(ex.newVar(fmt.Sprintf("crash.hdrcut%d.op%d", k, ex.vfs.ops), 0)) {
+							break
+						}
+					}
+					ex.appendChunk(h, &vchunk{kind: 0, val: val, hbytes: k})
+					ex.choices["crash.op"] = uint64(ex.vfs.ops)
+					ex.choices["crash.hdrbytes"] = uint64(k)
+					ex.tags["crash"] = "inside-header-write"
+					panic(crashSignal{})
+				}
+			}
+			ex.appendChunk(h, &vchunk{kind: 0, val: val, hbytes: 4})
+			ex.vfs.logOp("write header " + h.path)
+			return nilErr()
+		},
+		"encoding/binary.Read": func(ex *Exec, fn *ssa.Function, a []Value) Value {
+			chunks, pos, ok := ex.sourceOf(a[0])
+			if !ok {
+				ex.fatal("binary.Read from a reader that is not vfs-backed")
+			}
+			target := a[2].(*IfaceVal).Val.(*Ptr).C
+			val, err := ex.readHeader(*chunks, pos)
+			if val != nil {
+				ex.store(target, val)
+			}
+			return err
+		},
+		"bufio.NewReader": func(ex *Exec, fn *ssa.Function, a []Value) Value {
+			if ex.vfs == nil {
+				ex.fatal("bufio.NewReader without vfs")
+			}
+			// reading is modelled directly on the underlying file (whose position therefore ends where
+			// reading stopped; the real buffered reader reads ahead, which only matters if the file is
+			// written again after a read that stopped early)
+			c := ex.newFileCell(fn, 0)
+			if h, isH := a[0].(*IfaceVal).Val.(*Ptr); isH {
+				if fh := ex.vfs.handles[h.C]; fh != nil {
+					ex.vfs.handles[c] = fh
+					return &Ptr{C: c}
+				}
+			}
+			ex.fatal("bufio.NewReader over a reader that is not a vfs file")
+			return nil
+		},
 		// B1 binding: the in-memory entries of a persistentLog stand for its durable content
 		// (justified by C12: memory is published only after Sync), so reopening is the identity.
 		"(*github.com/jmsadair/raft.persistentLog).Open": func(ex *Exec, fn *ssa.Function, a []Value) Value {
+			if ex.vfs != nil {
+				return ex.callFunction(fn, a, nil)
+			}
 			c := a[0].(*Ptr).C
 			fc, ec := plField(c, "file"), plField(c, "entries")
 			if p := fc.V.(*Ptr); p.C == nil {
@@ -89,6 +961,9 @@ func registerIOIntercepts() {
 			return nilErr()
 		},
 		"(*github.com/jmsadair/raft.persistentLog).Close": func(ex *Exec, fn *ssa.Function, a []Value) Value {
+			if ex.vfs != nil {
+				return ex.callFunction(fn, a, nil)
+			}
 			c := a[0].(*Ptr).C
 			fc, ec := plField(c, "file"), plField(c, "entries")
 			if p := fc.V.(*Ptr); p.C == nil {
@@ -102,7 +977,12 @@ func registerIOIntercepts() {
 			fc.V = &Ptr{}
 			return nilErr()
 		},
-		"(*github.com/jmsadair/raft.persistentLog).Replay": func(ex *Exec, fn *ssa.Function, a []Value) Value { return nilErr() },
+		"(*github.com/jmsadair/raft.persistentLog).Replay": func(ex *Exec, fn *ssa.Function, a []Value) Value {
+			if ex.vfs != nil {
+				return ex.callFunction(fn, a, nil)
+			}
+			return nilErr()
+		},
 	}
 	for k, v := range m {
 		intercepts[k] = v
@@ -110,7 +990,43 @@ func registerIOIntercepts() {
 	registerIOModels()
 }
 
-func (ex *Exec) vfsReadFull(a []Value) (Value, bool) { return nil, false }
+func allZero(v Value) bool {
+	switch x := v.(type) {
+	case *Term:
+		return x.IsConst() && x.C == 0
+	case *StrVal:
+		return x.Sym == nil && x.S == ""
+	case *Agg:
+		for _, e := range x.E {
+			if !allZero(e) {
+				return false
+			}
+		}
+		return true
+	case *SliceVal:
+		return x.Blob == nil && x.Len == 0
+	case *Ptr:
+		return x.C == nil
+	case *MapObj:
+		return x == nil || len(x.Cells) == 0
+	case *IfaceVal:
+		return x.Typ == nil
+	case *FuncVal:
+		return x.Fn == nil
+	}
+	return false
+}
+
+// vfsEvent lets harness-visible ghost state record the order of durable events (C12.order).
+func (ex *Exec) vfsEvent(kind, path string) {
+	key := "vfs-events"
+	n := 0
+	if v, ok := ex.ghost[key]; ok {
+		n = int(v.(*Term).C)
+	}
+	ex.ghost[key] = mkConst(64, uint64(n+1))
+	ex.ghost[fmt.Sprintf("vfs-event:%d", n)] = &StrVal{S: kind + " " + path}
+}
 
 // lockAccess records an access for the C20 lock-discipline check.
 func (ex *Exec) lockAccess(c *Cell, write bool) {}
